@@ -20,6 +20,7 @@ import multiprocessing
 import os
 import pathlib
 import re
+import subprocess
 import sys
 import time
 import traceback
@@ -194,6 +195,7 @@ class WorkerCtx:
         self.target_bucket = None
         self.last_fail = None
         self.use_hypothesis = True
+        self.history = []  # every case this worker executed, in order (JSON text): the replay unit for state that leaks between cases
 
     @property
     def wseed(self):
@@ -204,6 +206,7 @@ class WorkerCtx:
         return time.time() > self.deadline
 
     def verdict_of(self, case):
+        self.history.append(json.dumps(case, default=str))
         try:
             v = self.mod.check_case(case)
         except YadismError as e:
@@ -261,26 +264,40 @@ class WorkerCtx:
                 self.target_bucket = new[0].bucket
             hit = [f for f in new if f.bucket == self.target_bucket]
             if hit:
-                self.last_fail = (case, hit[0])
+                self.last_fail = (case, hit[0], len(self.history) - 1)
                 if raise_on_violation:
                     raise Violation(hit[0].bucket)
         return v
 
     def finish_failure(self):
         """Persist the (shrunk) failing case of the bucket that was being chased."""
-        case, f = self.last_fail
+        case, f, pos = self.last_fail
         d = HOME / "replays" / "_found"
         d.mkdir(parents=True, exist_ok=True)
         bh = hashlib.sha1(f.bucket.encode()).hexdigest()[:8]
         path = d / f"{self.mod.ID}-{bh}-s{self.seed}-w{self.shard}.json"
-        path.write_text(
-            json.dumps(
-                {"property": self.mod.ID, "bucket": f.bucket, "detail": f.detail, "case": case},
-                indent=1,
-                default=str,
-            )
-        )
-        self.stats.violations.append({"bucket": f.bucket, "detail": f.detail, "replay": str(path)})
+        doc = {"property": self.mod.ID, "bucket": f.bucket, "detail": f.detail, "case": case}
+        path.write_text(json.dumps(doc, indent=1, default=str))
+        # the replay file must be the reproducible unit: re-execute it in a fresh interpreter; if the failure does not come back,
+        # it depends on state left behind by the cases this worker ran before - they are attached and replayed in order
+        note = ""
+        if os.environ.get("YV_NO_REPLAY_CONFIRM") != "1":
+            try:
+                rc = subprocess.run(
+                    [sys.executable, "-m", "yv.main", self.mod.ID, "--replay", str(path)],
+                    stdout=subprocess.DEVNULL, stderr=subprocess.DEVNULL, timeout=1200, env=dict(os.environ, YV_NO_REPLAY_CONFIRM="1"),
+                ).returncode
+            except Exception:  # pylint: disable=broad-except
+                rc = None
+            if rc == 0:
+                doc["history"] = [json.loads(h) for h in self.history[:pos]]
+                doc["history_note"] = (
+                    "the case alone passes in a fresh process; it failed after the cases listed under 'history' had been executed "
+                    "in the same process (state surviving from run to run); --replay executes them first, in order"
+                )
+                path.write_text(json.dumps(doc, indent=1, default=str))
+                note = f" [passes alone in a fresh process: {len(doc['history'])} preceding cases of the worker attached to the replay file]"
+        self.stats.violations.append({"bucket": f.bucket, "detail": f.detail + note, "replay": str(path)})
         self.reported.add(f.bucket)
         self.target_bucket = None
         self.last_fail = None
@@ -529,8 +546,15 @@ def replay_one(modname, path):
     mod = importlib.import_module(modname)
     if hasattr(mod, "warmup"):
         mod.warmup()
-    case = json.loads(pathlib.Path(path).read_text())["case"]
+    doc = json.loads(pathlib.Path(path).read_text())
+    case = doc["case"]
     ctx = WorkerCtx(mod, "quick", 0, 0, 1, 0, 3600)
+    for h in doc.get("history", []):
+        # state-dependent failure: bring the process into the state the worker was in (verdicts of these cases do not matter here)
+        try:
+            ctx.verdict_of(h)
+        except Exception:  # pylint: disable=broad-except
+            pass
     try:
         v = ctx.verdict_of(case)
     except Exception:  # pylint: disable=broad-except
